@@ -427,6 +427,17 @@ func checkInjectorCalls(fset *token.FileSet, pkg *types.Package, pos token.Pos, 
 						fmt.Errorf("inject %s: struct provider for %s sets unexported field %s.%s.%s", name, ts, c.pkg.Name(), c.name, fn)))
 				}
 			}
+		} else if c.pkg != nil {
+			// A struct type of this package may still be defined over a struct of
+			// another package (type L other.S), whose unexported fields stay out
+			// of reach.
+			for i, fn := range c.fieldNames {
+				if fp := c.fieldPkgs[i]; !ast.IsExported(fn) && fp != nil && fp.Path() != pkgPath {
+					ec.add(notePosition(
+						fset.Position(pos),
+						fmt.Errorf("inject %s: struct provider for %s sets unexported field %s of a struct declared in package %s", name, types.TypeString(c.out, nil), fn, fp.Path())))
+				}
+			}
 		}
 		if c.kind == valueExpr {
 			if err := accessibleFrom(c.valueTypeInfo, c.valueExpr, pkg); err != nil {
